@@ -207,6 +207,25 @@ def reset_cover(ck, P, W, entry_path, state_adt, config, dead, percall, label, p
     return written
 
 
+def reset_flags(ck, P):
+    """inflate::reset_keep sets every defined flag bit (a reset stream asks for its dictionary again, is not at its last block, is sane)"""
+    rk = P.fn(Z + "inflate::reset_keep")
+    if not ck.anchor("fn inflate::reset_keep", rk):
+        return
+    ck.use_fn(rk)
+    # all three defined flag bits are updated
+    want = {"IS_LAST_BLOCK": 0, "HAVE_DICT": 0, "SANE": 1}
+    got = {}
+    for c in rk.live_calls(r"inflate::Flags::update$"):
+        a = rk.call_args(c)
+        if len(a) == 3 and a[1][0] == "c" and a[1][2]:
+            got[a[1][2].split("::")[-1]] = rk.const_of(a[2])
+    for k, v in want.items():
+        ck.decide(got.get(k) == v, "FIELD/reset-flags", "inflate::Flags::" + k,
+                  "reset_keep sets %s=%s" % (k, bool(v)),
+                  "reset_keep does not set flag %s to %s (found %r)" % (k, bool(v), got.get(k)), where(rk))
+
+
 def run(ck):
     P = prog("K1")
     W = writes("K1")
@@ -303,17 +322,7 @@ def run(ck):
     rk = P.fn(Z + "inflate::reset_keep")
     if ck.anchor("fn inflate::reset_keep", rk):
         ck.use_fn(rk)
-        # all three defined flag bits are updated
-        want = {"IS_LAST_BLOCK": 0, "HAVE_DICT": 0, "SANE": 1}
-        got = {}
-        for c in rk.live_calls(r"inflate::Flags::update$"):
-            a = rk.call_args(c)
-            if len(a) == 3 and a[1][0] == "c" and a[1][2]:
-                got[a[1][2].split("::")[-1]] = rk.const_of(a[2])
-        for k, v in want.items():
-            ck.decide(got.get(k) == v, "FIELD/reset-flags", "inflate::Flags::" + k,
-                      "reset_keep sets %s=%s" % (k, bool(v)),
-                      "reset_keep does not set flag %s to %s (found %r)" % (k, bool(v), got.get(k)), where(rk))
+        reset_flags(ck, P)
         fm = W.must(P.fn(Z + "inflate::reset_with_config"))
         top = {p for q, p in fm if q == 1 and len(p) == 1}
         for f in ("total_in", "total_out", "msg"):
